@@ -255,7 +255,9 @@ theorem envOp_frame (a : Actor) (op : AOp) :
   | kidDel c => exact ⟨by simp [Actor.envOp], rfl, rfl, id⟩
   | call k =>
     refine ⟨?_, ?_, ?_, ?_⟩
-    · simp only [Actor.envOp]; intro e he; simp at he; subst he; split <;> rfl
+    · simp only [Actor.envOp]; intro e he; simp at he; rcases he with he | he <;> subst he
+      · rfl
+      · split <;> rfl
     · simp only [Actor.envOp, apiCall]; (repeat' split) <;> rfl
     · simp only [Actor.envOp, apiCall]; (repeat' split) <;> rfl
     · simp only [Actor.envOp, apiCall]
@@ -407,7 +409,7 @@ theorem dead_core (a : Actor) (op : AOp) (hd : Dead a) (s : St) (hf : s.failed =
   | spawn sup name nf loc sok => exact ⟨s, by simp [Actor.stepCore, opSpawn, hph], hf, by simpa [Actor.stepCore, opSpawn, hph] using hd⟩
   | pollSpawn sok => exact ⟨s, by simp [Actor.stepCore, opPollSpawn, hph], hf, by simpa [Actor.stepCore, opPollSpawn, hph] using hd⟩
   | dropSpawn => exact ⟨s, by simp [Actor.stepCore, opDropSpawn, hph], hf, by simpa [Actor.stepCore, opDropSpawn, hph] using hd⟩
-  | poll => exact ⟨s, by simp [Actor.stepCore, opPoll, hph], hf, by simpa [Actor.stepCore, opPoll, hph] using hd⟩
+  | poll => exact ⟨s, by simp [Actor.stepCore, opPoll, pollMark, Phase.isTask, hph], hf, by simpa [Actor.stepCore, opPoll, pollMark, Phase.isTask, hph] using hd⟩
   | abort => exact ⟨s, by simp [Actor.stepCore, opAbort, hph, Phase.isTask], hf, by simpa [Actor.stepCore, opAbort, hph, Phase.isTask] using hd⟩
   | resume sg => exact ⟨s, by simp [Actor.stepCore, opResume, hph, Phase.openCb], hf, by simpa [Actor.stepCore, opResume, hph, Phase.openCb] using hd⟩
   | send m =>
@@ -491,7 +493,17 @@ theorem started_core (a : Actor) (op : AOp) (hst : started a.phase = true) :
       | (split
          · rename_i h; exact absurd h hnp
          · exact ⟨by simp, hst⟩)
-  | poll => exact opPoll_ok a hst
+  | poll =>
+    simp only [Actor.stepCore, pollMark]
+    split
+    · obtain ⟨h1, h2⟩ := opPoll_ok a hst
+      refine ⟨?_, h2⟩
+      intro e he
+      simp only [evs_append, List.mem_append, evs_cons_ev, evs_nil, List.mem_singleton] at he
+      rcases he with he | he
+      · exact h1 e he
+      · subst he; rfl
+    · exact opPoll_ok a hst
   | abort => exact opAbort_ok a hst
   | resume sg => exact opResume_ok a sg hst
   | _ =>
@@ -531,7 +543,7 @@ theorem stepCore_inv (a : Actor) (s : St) (op : AOp) (h : Inv a s) :
         · exact ⟨{ s with entered := true }, by simp [accepts_cons, next, hf, hent], hpre _ _ rfl rfl rfl hf rfl⟩
     | pollSpawn sok => exact ⟨s, by simp [Actor.stepCore, opPollSpawn, hph], by simpa [Actor.stepCore, opPollSpawn, hph] using hfresh⟩
     | dropSpawn => exact ⟨s, by simp [Actor.stepCore, opDropSpawn, hph], by simpa [Actor.stepCore, opDropSpawn, hph] using hfresh⟩
-    | poll => exact ⟨s, by simp [Actor.stepCore, opPoll, hph], by simpa [Actor.stepCore, opPoll, hph] using hfresh⟩
+    | poll => exact ⟨s, by simp [Actor.stepCore, opPoll, pollMark, Phase.isTask, hph], by simpa [Actor.stepCore, opPoll, pollMark, Phase.isTask, hph] using hfresh⟩
     | abort => exact ⟨s, by simp [Actor.stepCore, opAbort, hph, Phase.isTask], by simpa [Actor.stepCore, opAbort, hph, Phase.isTask] using hfresh⟩
     | resume sg => exact ⟨s, by simp [Actor.stepCore, opResume, hph, Phase.openCb], by simpa [Actor.stepCore, opResume, hph, Phase.openCb] using hfresh⟩
     | _ => exact ⟨s, by simp [Actor.stepCore, hph], by simpa [Actor.stepCore, hph] using hfresh⟩
@@ -541,7 +553,7 @@ theorem stepCore_inv (a : Actor) (s : St) (op : AOp) (h : Inv a s) :
     have hkeep : Inv a s := Or.inr ⟨hf, Or.inr (Or.inl ⟨hph, hent, harmed, hcf⟩)⟩
     cases op with
     | spawn sup name nf loc sok => exact ⟨s, by simp [Actor.stepCore, opSpawn, hph], by simpa [Actor.stepCore, opSpawn, hph] using hkeep⟩
-    | poll => exact ⟨s, by simp [Actor.stepCore, opPoll, hph], by simpa [Actor.stepCore, opPoll, hph] using hkeep⟩
+    | poll => exact ⟨s, by simp [Actor.stepCore, opPoll, pollMark, Phase.isTask, hph], by simpa [Actor.stepCore, opPoll, pollMark, Phase.isTask, hph] using hkeep⟩
     | abort => exact ⟨s, by simp [Actor.stepCore, opAbort, hph, Phase.isTask], by simpa [Actor.stepCore, opAbort, hph, Phase.isTask] using hkeep⟩
     | resume sg =>
       have hcb : a.phase.openCb = some .preStart := by simp [hph, Phase.openCb]
